@@ -33,7 +33,12 @@ def gen_history(rng, n=(5, 10), fixed_p3=False):
         k = rng.random()
         if k < 0.35 and tracked:
             p = rng.choice(tracked); ver += 1
-            items.append(["W", p, ("%s v%d %s" % (p, ver, "x" * rng.randint(0, 3))).encode().hex()])
+            earlier = [i[2] for i in items if i[0] == "W" and i[1] == p][:-1]
+            if earlier and rng.random() < 0.25:
+                # the content goes BACK to an earlier version of the path (A, B, A): the commit of the third state records A again
+                items.append(["W", p, rng.choice(earlier)])
+            else:
+                items.append(["W", p, ("%s v%d %s" % (p, ver, "x" * rng.randint(0, 3))).encode().hex()])
             items.append(["carry", [p]])
             if rng.random() < 0.3:
                 # committing again with --force (same content): still "committing", must not lose a version
